@@ -55,9 +55,9 @@ class KernelTranslator:
         self.known = dict(known_funcs)
 
     def fail(self, node, what):
+        shown = ast.dump(node)[:120] if isinstance(node, ast.AST) else repr(node)
         raise Untranslatable(
-            f"line {getattr(node, 'lineno', '?')}: unsupported {what}: "
-            f"{ast.dump(node)[:120]}")
+            f"line {getattr(node, 'lineno', '?')}: unsupported {what}: {shown}")
 
     # ---- types
     def ann(self, node):
@@ -89,6 +89,15 @@ class KernelTranslator:
             if t == "Rat" and e.attr == "denominator":
                 return f"(({v}).den : Int)", "Int", g
             self.fail(e, "attribute")
+        if isinstance(e, ast.IfExp):
+            # `a if c else b` (operands without partial operations only: their
+            # guards would otherwise become unconditional)
+            c, tc, gc = self.expr(e.test, env)
+            a, ta, ga = self.expr(e.body, env)
+            b, tb, gb = self.expr(e.orelse, env)
+            if tc != "Bool" or ta != tb or ga or gb:
+                self.fail(e, "conditional expression")
+            return f"(if {c} then {a} else {b})", ta, gc
         if isinstance(e, ast.UnaryOp):
             v, t, g = self.expr(e.operand, env)
             if isinstance(e.op, ast.USub) and t in ("Int", "Rat"):
@@ -868,8 +877,10 @@ def regenerate(repo=REPO, only=None):
             continue
         try:
             text = fn(repo)
-        except (Untranslatable, SyntaxError, OSError, KeyError, ValueError,
-                ET.ParseError) as exc:
+        except Exception as exc:      # noqa: BLE001
+            # whatever the translator cannot digest - outside its Python subset,
+            # or a construct it did not anticipate - breaks the tie; it never
+            # crashes the check (the check then looks for a failing input)
             errors[name] = f"{type(exc).__name__}: {exc}"
             continue
         if write_if_changed(os.path.join(GEN_DIR, name), text):
